@@ -7,6 +7,13 @@ Definition bytes_to_str (b : bytes) : string := string_of_list_ascii (map ascii_
 Definition opt_err (i : item) : option string :=
   match i with IL [IB m] => Some (bytes_to_str m) | _ => None end.
 
+Fixpoint items_Ns (l : list item) : option (list N) :=
+  match l with
+  | [] => Some []
+  | IN n :: t => match items_Ns t with Some r => Some (n :: r) | None => None end
+  | _ => None
+  end.
+
 Definition item_tev (i : item) : option tev :=
   match i with
   | IL [IN 0; IN g] => Some (TTxStart g)
@@ -19,6 +26,8 @@ Definition item_tev (i : item) : option tev :=
   | IL [IN 6; IN jp; IN f; IN t; IN a; IB inp; IN g; v] =>
     match opt_n v with Some v' => Some (TAspEnter jp f t a inp g v') | None => None end
   | IL [IN 7; IN jp; IN g; IB ret; e] => Some (TAspExit jp g ret (opt_err e))
+  | IL [IN 8; IN addr; IL topics; IB data] =>
+    match items_Ns topics with Some ts => Some (TLog addr ts data) | None => None end
   | _ => None
   end.
 Fixpoint items_tevs (l : list item) : option (list tev) :=
@@ -27,14 +36,33 @@ Fixpoint items_tevs (l : list item) : option (list tev) :=
   | i :: t => match item_tev i, items_tevs t with Some e, Some r => Some (e :: r) | _, _ => None end
   end.
 
+Fixpoint logs_match (l : list clog) (o : list item) : bool :=
+  match l, o with
+  | [], [] => true
+  | (addr, topics, data) :: s, IL [IN addr'; IL topics'; IB data'] :: t =>
+    (addr =? addr') && match items_Ns topics' with Some ts => list_eqb N.eqb topics ts | None => false end &&
+    bytes_eqb data data' && logs_match s t
+  | _, _ => false
+  end.
+
+(** withLog off: LOG steps are not looked at; withLog on: CaptureTxEnd also clears the logs of failed frames *)
+Fixpoint with_log_stream (with_log : bool) (es : list tev) : list tev :=
+  match es with
+  | [] => []
+  | TLog a t d :: r => if with_log then TLog a t d :: with_log_stream with_log r else with_log_stream with_log r
+  | TTxEnd g :: r => if with_log then TTxEnd g :: TClearLogs :: with_log_stream with_log r else TTxEnd g :: with_log_stream with_log r
+  | e :: r => e :: with_log_stream with_log r
+  end.
+
 (** compare a model frame with the observed frame item (structural recursion on the item) *)
 Fixpoint cframe_match (fuel : nat) (f : cframe) (i : item) : bool :=
   match fuel with
   | O => false
   | S k =>
     match f, i with
-    | CF typ from to input gas used out err calls jps value,
-      IL [IN typ'; IN from'; to'; IB input'; IN gas'; IN used'; IB out'; IB err'; IL calls'; IL jps'; value'] =>
+    | CF typ from to input gas used out err calls jps value logs,
+      IL [IN typ'; IN from'; to'; IB input'; IN gas'; IN used'; IB out'; IB err'; IL calls'; IL jps'; value'; IL logs'] =>
+      logs_match logs logs' &&
       (typ =? typ') && (from =? from') && opt_N_match to to' && bytes_eqb input input' && (gas =? gas') && (used =? used') &&
       bytes_eqb out out' && bytes_eqb (string_to_bytes err) err' && opt_N_match value value' &&
       (fix cm (a : list cframe) (b : list item) : bool :=
@@ -81,10 +109,11 @@ Definition lift {A B} (r : res A) (f : A -> res B) : res B :=
 (** kind 0: callTracer (only-top-call flag); kind 1: flatCallTracer (include-precompiles, parity errors) *)
 Definition tr_check_items (c : list item) : option bool :=
   match c with
-  | [IN 0; IN onlytop; IL evs; obs] =>
+  | [IN 0; IN onlytop; IN withlog; IL evs; obs] =>
     match items_tevs evs with
     | None => None
-    | Some es =>
+    | Some es0 =>
+      let es := with_log_stream (negb (withlog =? 0)) es0 in
       Some (match lift (ct_run (negb (onlytop =? 0)) t_init es) ct_result, obs with
             | Ok f, IL [IN 0; fi] => cframe_match 200 f fi
             | Err _, IL [IN 1; IB _] => true
